@@ -150,6 +150,9 @@ class C10(Prop):
         if rng.random() < 0.3:
             ws = [[a, abs(w) if True else w] for a, w in c['weights']]
             c['warmup_calls'] = [ws + [['EQ:WARM1', 0.5], ['EQ:WARM2', 0.25]], [['EQ:WARM2', 1.0]]][:rng.randint(1, 2)]
+        if rng.random() < 0.2:
+            # the broker charged other fees when the sizer was built (and during the earlier calls); its fee model is replaced before this call
+            c['warm_fee'] = rng.choice([['zero'], ['pct', 0.08, 0.0], ['pct', 0.001, 0.005], ['pct', 0.2, 0.0]])
         return c
 
     def gen(self, rng, tier):
